@@ -19,7 +19,7 @@ const META_OFF: usize = 1 << 31; // metadata lives in the upper half of the stri
 const META_SIZE: usize = 1 << 28;
 const RED: usize = 32;
 const HDR: usize = 32;
-const MAGIC: u64 = 0xB10C_B10C_5AFE_C0DE;
+const MAGIC: u32 = 0xB10C_C0DE;
 const CANARY: u8 = 0xA5;
 pub const POISON_FREED: u8 = 0xDD;
 pub const POISON_FRESH: u8 = 0xCD;
@@ -27,7 +27,9 @@ const MAX_ERRORS: usize = 32;
 
 #[repr(C)]
 struct Header {
-    magic: u64,
+    magic: u32,
+    /// bytes after the rear red zone that a growing `realloc` may still take over (only in grow-in-place mode)
+    slack: u32,
     size: u64,
     align: u32,
     state: AtomicU32, // 1 live, 2 freed
@@ -60,6 +62,9 @@ struct State {
     epoch: u64,
     nblocks: usize,
     active: bool,
+    /// odd address salts: blocks are allocated with slack behind them and `realloc` grows them in place while the
+    /// slack lasts (what size-class allocators do); even salts: every `realloc` moves the block
+    grow_in_place: bool,
     live_blocks: AtomicU64,
     live_bytes: AtomicU64,
     total_allocs: u64,
@@ -146,6 +151,7 @@ pub fn begin(salt: usize) {
         assert!(!(*st).active, "nested arena execution");
         (*st).epoch += 1;
         (*st).bump = arena_base((*st).index) + ((salt * 64) % (1 << 20));
+        (*st).grow_in_place = salt % 2 == 1;
         (*st).nblocks = 0;
         (*st).live_blocks.store(0, Ordering::Relaxed);
         (*st).live_bytes.store(0, Ordering::Relaxed);
@@ -297,7 +303,8 @@ unsafe impl GlobalAlloc for Arena {
         let align = layout.align().max(8);
         let size = layout.size();
         let user = ((*st).bump + HDR + RED + align - 1) & !(align - 1);
-        let end = user + size + RED;
+        let slack = if (*st).grow_in_place { ((size.max(16) * 2).min(4096) + 7) & !7 } else { 0 };
+        let end = user + size + RED + slack;
         let base = arena_base((*st).index);
         if end > base + DATA_SIZE || (*st).nblocks >= MAX_BLOCKS {
             record(st, ErrKind::OutOfArena, user, size as u64, 0);
@@ -309,6 +316,7 @@ unsafe impl GlobalAlloc for Arena {
             hdr,
             Header {
                 magic: MAGIC,
+                slack: slack as u32,
                 size: size as u64,
                 align: layout.align() as u32,
                 state: AtomicU32::new(1),
@@ -391,7 +399,31 @@ unsafe impl GlobalAlloc for Arena {
                 return System.realloc(ptr, layout, new_size);
             }
         }
-        // Always move: maximises the chance that a stale pointer is noticed.
+        // grow-in-place mode: take over the slack behind the block (the recorded capacity of a buffer must then be
+        // updated by the caller although the pointer did not change)
+        if let Some(idx) = in_any_arena(p) {
+            let st = state_of(idx);
+            let hdr = (p.wrapping_sub(RED + HDR)) as *mut Header;
+            if (*st).grow_in_place && (hdr as usize) >= arena_base(idx) && (*hdr).magic == MAGIC && ((*hdr).epoch_seq >> 32) == (*st).epoch && (*hdr).state.load(Ordering::Relaxed) == 1 {
+                let size = (*hdr).size as usize;
+                if size != layout.size() || (*hdr).align as usize != layout.align() {
+                    record(st, ErrKind::LayoutMismatch, p, ((*hdr).size << 16) | (*hdr).align as u64, ((layout.size() as u64) << 16) | layout.align() as u64);
+                }
+                if new_size > size && new_size - size <= (*hdr).slack as usize {
+                    if !redzones_ok(p, size) {
+                        record(st, ErrKind::RedZone, p, size as u64, 0);
+                    }
+                    std::ptr::write_bytes((p + size) as *mut u8, POISON_FRESH, new_size - size);
+                    std::ptr::write_bytes((p + new_size) as *mut u8, CANARY, RED);
+                    (*hdr).slack -= (new_size - size) as u32;
+                    (*hdr).size = new_size as u64;
+                    (*st).live_bytes.fetch_add((new_size - size) as u64, Ordering::Relaxed);
+                    (*st).total_allocs += 1;
+                    return ptr;
+                }
+            }
+        }
+        // otherwise always move: maximises the chance that a stale pointer is noticed.
         let new_layout = Layout::from_size_align_unchecked(new_size, layout.align());
         let np = self.alloc(new_layout);
         if !np.is_null() {
